@@ -50,7 +50,7 @@ CHECKS = {
  "C02": dict(engine="metricsim",
    text="seeded search over interleavings of Add/Record from several goroutines with Collect on a delta and a cumulative ManualReader, a PeriodicReader's interval exports, ForceFlush and the final Shutdown collection; every increment of an instrument is a distinct power of two, so each reported value names exactly the set of measurements it contains; oracle: each measurement in exactly one delta collection, within its may/must window, seen by every reader, cumulative never forgets, monotonic sums never decrease, flush/shutdown visibility",
    ref="DESIGN.md §3 C02",
-   note="sequentially consistent interleavings of instrumented sdk/metric code (statement granularity plus split read-modify-writes); the periodic reader's exporter is a stub; sampling, not enumeration. A quarter of the workers run a race-detector build of the same engine in which the simulator's own synchronisation is hidden from the detector: a data race between two accesses of the code under test is reported as a violation (DESIGN.md §2.11)"),
+   note="sequentially consistent interleavings of instrumented sdk/metric code (statement granularity plus split read-modify-writes); the periodic reader's exporter is a stub; sampling, not enumeration; since waves 9-12: an instrument of a second scope created late and concurrently, int64/float64 variants, lazy runs in which every instrument is created by the recorders, every collection of the cumulative reader compared with its own callbacks' observations; callbacks never return errors (seeded change C02-m is therefore not caught, DESIGN.md §7). A quarter of the workers run a race-detector build of the same engine in which the simulator's own synchronisation is hidden from the detector: a data race between two accesses of the code under test is reported as a violation (DESIGN.md §2.11)"),
  "C08": dict(engine="metricsim",
    text="same simulated histories as C02 with joint collection points (delta and cumulative reader collected back to back while no measurement is in flight, recorders still alive): cumulative sums / histogram count, sum, buckets, min, max equal the fold of all deltas so far; delta intervals adjacent and non-overlapping across zero and long simulated gaps, cumulative start fixed; asynchronous instruments report exactly the observed sets with delta = observed - previously observed while callbacks are registered and unregistered concurrently; gauges report the last value of the cycle",
    ref="DESIGN.md §3 C08",
@@ -62,7 +62,7 @@ CHECKS = {
  "C10": dict(engine="spanlin",
    text="seeded search over interleavings of End/SetAttributes/AddEvent/AddLink/SetStatus/SetName/RecordError/IsRecording/child Start on shared spans, with Go execution tracing really on and off; recorded invoke/return histories are checked for linearizability with porcupine against a sequential span model, plus direct checks (exactly one OnEnd per processor, immutable snapshot, single end time, not recording after End, no panic/deadlock), plus the happens-before data-race oracle of the race-detector build",
    ref="DESIGN.md §3 C10",
-   note="sequentially consistent interleavings at statement granularity (read-modify-write statements on shared memory are additionally split); the model covers default span limits. A quarter of the workers run a race-detector build of the same engine in which the simulator's own synchronisation is hidden from the detector, so that accesses the schedule merely serialised are reported as the data race they are (DESIGN.md §2.11); the detector's verdict on one schedule can be hidden by runtime-made happens-before edges (sync.Pool in race builds), so a data-race replay is repeated up to six times"),
+   note="sequentially consistent interleavings at statement granularity (read-modify-write statements on shared memory are additionally split); the model covers default span limits. A quarter of the workers run a race-detector build of the same engine in which the simulator's own synchronisation is hidden from the detector, so that accesses the schedule merely serialised are reported as the data race they are (DESIGN.md §2.11); the detector's verdict on one schedule can be hidden by runtime-made happens-before edges (sync.Pool in race builds), so a data-race replay is repeated up to six times. Since waves 10-13 the workload also holds a provider Shutdown among the span operations (operations that had not returned by then are lax in the model), RecordError with an error value whose Error method panics, and End as the deferred call of a panicking function (entered as two operations: the exception event, then End)"),
  "C01": dict(engine="bsp",
    text="seeded search over schedules, time advances, configurations and exporter faults of the real batch span processor under a deterministic scheduler; history oracle for exactly-once, batch size, exporter exclusivity, flush visibility, drop accounting, export-after-shutdown and bounded liveness",
    ref="DESIGN.md §3 C01",
